@@ -164,16 +164,30 @@ def part_f(res, fa, si, codec, tier, seen):
         exp = cont.expected(node, defs, recs)
         for how, kw, sch in (("same-codec", {"codec": codec}, raw), ("no-codec-arg", {}, None), ("other-codec", {"codec": other}, raw),
                              ("other-marker", {"codec": codec, "sync_marker": b"Z" * 16}, None)):
-            for iv in (1, 16000):
-                info = {"part": "f", "schema": raw, "records": recs, "codec": codec, "append": how, "sync_interval": iv}
+            for iv, cursor in ((1, "end"), (16000, "end"), (16000, "after-magic"), (1, "mid-file"), (16000, "after-first-record-read")):
+                info = {"part": "f", "schema": raw, "records": recs, "codec": codec, "append": how, "sync_interval": iv, "cursor": cursor}
                 note_case(info)
                 res.evals += 1
                 fo = io.BytesIO()
+
+                def place(fo=fo, cursor=cursor):
+                    # where the caller happens to have left the stream before appending
+                    if cursor == "end":
+                        fo.seek(0, 2)
+                    elif cursor == "after-magic":
+                        fo.seek(0)
+                        fo.read(4)
+                    elif cursor == "mid-file":
+                        fo.seek(len(fo.getvalue()) // 2)
+                    else:
+                        fo.seek(0)
+                        next(iter(fa.reader(fo)))
+
                 try:
                     fa.writer(fo, copy.deepcopy(raw), copy.deepcopy(recs), codec=codec, sync_interval=iv, sync_marker=marker)
-                    fo.seek(0, 2)
+                    place()
                     fa.writer(fo, copy.deepcopy(sch) if sch is not None else None, copy.deepcopy(recs), sync_interval=iv, **kw)
-                    fo.seek(0, 2)
+                    place()
                     fa.writer(fo, None, copy.deepcopy(recs[:1]), **kw)
                 except Exception as e:
                     res.add(Violation("c05.f", f"append-raised:{type(e).__name__}", f"appending raised {type(e).__name__}: {e} | {short(info, 400)}", info))
